@@ -93,6 +93,15 @@ PROPS = {
                ["C14"], stages=("E5",), e5only="fg,gcc,rev"),
     "C15": rel("Uniseg.Properties.C15",
                ["Uniseg.Properties.C15.runeWidth_amb", "Uniseg.Properties.C15.runeWidth_affine", "Uniseg.Properties.C15.firstGraphemeCluster_amb",
-                "Uniseg.Properties.C15.grapheme_chain_amb", "Uniseg.Properties.C15.step_amb", "Uniseg.Properties.C15.step_flags_amb"],
+                "Uniseg.Properties.C15.grapheme_chain_amb", "Uniseg.Properties.C15.step_amb", "Uniseg.Properties.C15.step_flags_amb", "Uniseg.Properties.C15.config_only_read_in_runeWidth"],
                ["C15"], stages=("E5",), e5only="fg,st,sts,sw", extra="extra_amb"),
+    "C16": rel("Uniseg.Properties.C16",
+               ["Uniseg.Properties.C16.interleaving_eq_solo", "Uniseg.Properties.C16.package_is_read_only", "Uniseg.Properties.C16.config_read_only_in_runeWidth"],
+               [], stages=(), extra="extra_race",
+               trusted_extra=["the effect extraction (go/types walk in /verif/extract) and the allow-list of pure standard-library callees",
+                              "the Go memory model (data-race-free programs are sequentially consistent); the race detector's incompleteness"]),
+    "C17": rel("Uniseg.Properties.C17",
+               ["Uniseg.Properties.C17.functional_api_reaches_no_allocator", "Uniseg.Properties.C17.stack_stays_reachable"],
+               [], stages=("ALLOC",), oracle_stages=["ALLOC"], n_quick=6000,
+               trusted_extra=["go tool objdump's listing of the harness binary, the allow-list of non-allocating runtime entry points, and the compiler used for the build (escape analysis is a property of the inspected binary)"]),
 }
